@@ -7,7 +7,10 @@ T: recorded calls of zmethod.knees judged by Trace_ZMethod against the property-
 DRIFT (notes only): the implementation-shaped machine replayed by TLC on the recorded tables of small calls.
 SCALE: production-size curves (n = 257 .. about 10^5, sizes straddling 2^8 .. 2^16, 10^4, 10^5) rebuilt from a compact
    spec inside the worker, replayed into zmethod.knees and judged by the SAME Trace_ZMethod cases: the tables are sparse
-   by construction (x, height ranks and y-separation of the RETURNED knees only; w and the y band from the FULL curve)."""
+   by construction (x, height ranks and y-separation of the RETURNED knees only; w and the y band from the FULL curve).
+SEQUENCES: several calls in a row, in ONE process, on the same curve object and on equal copies, with the same dx/dy/dz and
+   changing x_max / y_range overrides (both orders; small and production-size curves); EVERY call is its own Trace_ZMethod
+   case judged against ITS OWN w and y band (a result carried over from an earlier call is caught by the separation clauses)."""
 import dis
 import json
 import math
@@ -77,8 +80,9 @@ def _limit(x, y, dz):
     return int(math.ceil((3 - zmin) / dz)) + len(x) + 2 + SLACK, z
 
 
-def _record(item):
-    """One call of zmethod.knees -> (case for Trace_ZMethod, replay meta, machine case or None)."""
+def _record(item, given=None):
+    """One call of zmethod.knees -> (case for Trace_ZMethod, replay meta, machine case or None).
+    given: the array OBJECT handed to the library (sequence family; default: a fresh copy of the points)."""
     from kneeliverse import zmethod
     cid, P, dx, dy, dz, x_max, y_range, want_machine = item[:8]
     spec = item[8] if len(item) > 8 else None          # scale family: the curve is rebuilt from its spec on replay
@@ -99,7 +103,7 @@ def _record(item):
     try:
         # backstop over ALL back-edges: per round at most one pass over the groups plus, per group, one pass
         # over the knees selected so far (groups + selected <= n)
-        outcome, v, counts = monitor.call(zmethod.knees, (P.copy(), dx, dy, dz), kw,
+        outcome, v, counts = monitor.call(zmethod.knees, (P.copy() if given is None else given, dx, dy, dz), kw,
                                           budget=limit * (n * n // 4 + 2 * n + 16) + 20000, wall=60)
     finally:
         _fine["on"] = False
@@ -130,7 +134,7 @@ def _record(item):
              for b, vb in zip(res, valid)] for a, va in zip(res, valid)]
     case = {"id": cid, "n": n, "outcome": outcome, "steps": int(steps), "limit": int(limit),
             "res": res, "xk": xk, "hk": hk, "w": int(w), "ysep": ysep}
-    meta = {"points": P.tolist() if spec is None else None, "spec": spec, "dx": dx, "dy": dy, "dz": dz, "x_max": x_max, "y_range": y_range,
+    meta = {"points": P.tolist() if spec is None and given is None else None, "spec": spec, "dx": dx, "dy": dy, "dz": dz, "x_max": x_max, "y_range": y_range,
             "error": err, "backedges": counts}
     mach = _machine_case(cid, x, y, z, w, h, dz, ymin) if want_machine else None
     return case, meta, mach
@@ -395,6 +399,8 @@ def _record_scale(item):
 
 
 def _record_any(item):
+    if len(item) == 2:
+        return _record_seq(item)
     return _record_scale(item) if len(item) == 4 else _record(item)
 
 
@@ -434,6 +440,148 @@ def scale_inputs(ctx):
                         spec["K"] = min(spec["K"], 40)
                 items.append(("s%d_%d_%d" % (n, rep, j), spec, dy, dz))
     return items, ns
+
+
+# ------------------------------------------------------------------ sequence family (a SECOND call AND another override)
+# A sequence = one curve + a list of calls executed one after the other in ONE process (state the library keeps between calls
+# lives there), on the same array object ("same") or on an equal fresh copy ("copy").  Every call is an ordinary
+# Trace_ZMethod case judged against the w and the y band of ITS OWN x_max / y_range.
+Q_XMAX = (None, "n/2", "last", "last+1", "2n", "4n", "10n")      # a larger x_max: a larger required x separation
+Q_YRANGE = (None, "own", "top", "pad", "unit")                    # a wider y range: a larger required y separation
+Q_SHAPES = (("cliffs", "wide"), ("bumps", "wide"), ("cliffs", "wide"), ("mrc", "wide"), ("stairs", "wide"),
+            ("walk", "noisy"), ("texture", "noisy"))
+
+
+def _sq_resolve(x, y, xs, ys):
+    n = len(x)
+    xm = xs
+    if isinstance(xs, str):
+        xm = {"last": int(x[-1]), "last+1": int(x[-1]) + 1, "n/2": max(1, n // 2), "2n": 2 * n, "4n": 4 * n, "10n": 10 * n}[xs]
+    yr = ys
+    if isinstance(ys, str):
+        ymx, ymn = float(y.max()), float(y.min())
+        yr = {"unit": [1.0, 0.0], "own": [ymx, ymn], "pad": [min(1.0, ymx + 0.1), max(0.0, ymn - 0.1)], "top": [1.0, ymn]}[ys]
+    return xm, yr
+
+
+def _record_seq(item):
+    """(id, sequence) -> one (case, meta, None) per call of the sequence."""
+    cid, sq = item
+    if sq.get("spec") is not None:
+        P0 = _sc_build(sq["spec"])[0]
+    else:
+        P0 = np.ascontiguousarray(np.asarray(sq["points"], float))
+    x, y = P0[:, 0].copy(), P0[:, 1].copy()
+    shared = P0.copy()
+    out = []
+    prev = None
+    for k, c in enumerate(sq["calls"]):
+        xm, yr = _sq_resolve(x, y, c.get("x_max"), c.get("y_range"))
+        arr = shared if c.get("obj") == "same" else P0.copy()
+        case, meta, _ = _record(("%s.%d" % (cid, k), P0, c["dx"], c["dy"], c["dz"], xm, yr, False), given=arr)
+        mutated = not np.array_equal(arr, P0)
+        if arr is shared and mutated:       # (another property's business) keep the later calls on the SAME curve
+            shared = P0.copy()
+        # evidence: would the PREVIOUS call's result break this call's separation (is the pair of calls discriminating)?
+        stale = False
+        if prev is not None and len(prev) >= 2:
+            h = ((yr[0] - yr[1]) if yr else float(y.max() - y.min())) * c["dy"]
+            px, py = x[prev], y[prev]
+            dxm = np.abs(px[:, None] - px[None, :])
+            dym = np.abs(py[:, None] - py[None, :])
+            off = ~np.eye(len(prev), dtype=bool)
+            stale = bool(np.any((dxm < case["w"]) & off) or np.any((dym < h - 1e-9) & off))
+        prev = np.array([r for r in case["res"] if 0 <= r < len(x)], dtype=np.int64) if case["outcome"] == "returned" else None
+        meta.update(seq=sq, call=k, obj=c.get("obj"), mutated=mutated, stale_would_fail=stale,
+                    shape=(sq["spec"]["shape"] if sq.get("spec") else "small"))
+        out.append((case, meta, None))
+    return out
+
+
+def _sq_calls(rng, dx, dy, dz, xsyms, short=False):
+    """a, b = two different override pairs; the sequence contains a -> b AND b -> a on the same dx/dy/dz, then extras."""
+    xa, ya = rng.choice(xsyms), rng.choice(Q_YRANGE)
+    u = rng.random()
+    xb, yb = xa, ya
+    if u < 0.7:
+        xb = rng.choice([t for t in xsyms if t != xa])
+    if u >= 0.4:
+        yb = rng.choice([t for t in Q_YRANGE if t != ya])
+    a, b = (xa, ya), (xb, yb)
+    if rng.random() < 0.5:
+        a, b = b, a
+    ov = [a, b, a] if (short or rng.random() < 0.8) else [a, b]
+    for _ in range(0 if short else rng.choice([0, 0, 1, 2])):
+        ov.append(rng.choice([a, b, ov[-1], (rng.choice(xsyms), rng.choice(Q_YRANGE))]))
+    mode = rng.choice(["same", "copy", "mixed", "mixed"])
+    calls = []
+    for k, (xs, ys) in enumerate(ov):
+        calls.append({"dx": dx, "dy": dy, "dz": dz, "x_max": xs, "y_range": ys,
+                      "obj": "same" if k == 0 else (mode if mode != "mixed" else rng.choice(["same", "copy"]))})
+    if not short and rng.random() < 0.25:       # ... and a call that changes one of the steps on the same overrides
+        c = dict(calls[-1])
+        f = rng.choice(["dx", "dy", "dz"])
+        c[f] = rng.choice([t for t in PARAMS[1:] if t != c[f]])
+        calls.append(c)
+        calls.append(dict(calls[-2], obj=rng.choice(["same", "copy"])))
+    return calls
+
+
+def seq_inputs(ctx):
+    rng = ctx.rng
+    items = []
+    for k in range(220 if ctx.quick else 2500):
+        P = curves.mrc_curve(rng, 4, 200 if k % 4 == 0 else 80) if k % 3 == 0 else own_curve(rng)
+        n = len(P)
+        dx, dy, dz = rng.choice(PARAMS), rng.choice(PARAMS), rng.choice(PARAMS)
+        if n > 80 and dz < 0.05:
+            dz = rng.choice(PARAMS[1:])
+        xs = Q_XMAX + ((rng.randint(1, 400),) if rng.random() < 0.3 else ())
+        items.append(("q%d" % k, {"spec": None, "points": P.tolist(), "calls": _sq_calls(rng, dx, dy, dz, xs)}))
+    ns = scale.sizes(ctx, lo=250, hi=110000, k_quick=12, k_thorough=24)
+    for n in ns:
+        for rep in range(2 if ctx.quick else 3):
+            shape, fl = Q_SHAPES[rep] if rep < 2 else rng.choice(Q_SHAPES)
+            if ctx.quick and rep == 1 and rng.random() < 0.5:
+                shape, fl = rng.choice(Q_SHAPES[3:])
+            dx, dy, dz = rng.choice(S_DX[fl]), rng.choice(S_DY[fl]), rng.choice(S_DZ)
+            calls = _sq_calls(rng, dx, dy, dz, Q_XMAX, short=n > 40000)
+            plant = calls[0]["x_max"] if calls[0]["x_max"] in S_XMAX else None     # the twin drops are planted for this width
+            spec = {"shape": shape, "n": n, "seed": rng.randrange(1 << 30), "K": min(rng.randint(8, 40), max(1, n // 20)),
+                    "dx": dx, "xmode": rng.choice([0, 0, 1, 2, 3, 4]), "x_max": plant, "y_range": None}
+            if shape == "stairs":
+                spec["grow"] = rng.random() < 0.3
+            items.append(("Q%d_%d" % (n, rep), {"spec": spec, "points": None, "calls": calls}))
+    return items, ns
+
+
+def _seq_evidence(ctx, qrec, sizes):
+    pairs = 0
+    stricter = 0
+    for k in range(1, len(qrec)):
+        (c0, m0, _), (c1, m1, _) = qrec[k - 1], qrec[k]
+        if m1["call"] == 0 or m0["seq"] is not m1["seq"]:
+            continue
+        pairs += 1
+        stricter += all(m0[f] == m1[f] for f in ("dx", "dy", "dz")) and (m0["x_max"], m0["y_range"]) != (m1["x_max"], m1["y_range"])
+    ctx.extra["sequences"] = {
+        "sequences": sum(1 for _, m, _ in qrec if m["call"] == 0), "calls": len(qrec),
+        "production_size_sequences": sum(1 for _, m, _ in qrec if m["call"] == 0 and m["seq"].get("spec")),
+        "sizes": sizes, "longest_sequence": max([m["call"] + 1 for _, m, _ in qrec] or [0]),
+        "consecutive_pairs": pairs, "pairs_same_steps_other_overrides": stricter,
+        "calls_on_same_object": sum(1 for _, m, _ in qrec if m["call"] > 0 and m["obj"] == "same"),
+        "calls_on_equal_copy": sum(1 for _, m, _ in qrec if m["call"] > 0 and m["obj"] == "copy"),
+        "calls_the_previous_result_would_fail": sum(1 for _, m, _ in qrec if m["stale_would_fail"]),
+        "of_those_production_size": sum(1 for _, m, _ in qrec if m["stale_would_fail"] and m["seq"].get("spec")),
+        "calls_with_2plus_knees": sum(1 for c, _, _ in qrec if len(c["res"]) >= 2),
+        "input_mutated": sum(1 for _, m, _ in qrec if m["mutated"]),
+        "outcomes": {o: sum(1 for c, _, _ in qrec if c["outcome"] == o) for o in sorted(set(c["outcome"] for c, _, _ in qrec))},
+        "json_bytes_to_tlc": sum(len(json.dumps(c)) for c, _, _ in qrec)}
+    for c, m, _ in qrec:
+        if m["stale_would_fail"] and len(c["res"]) >= 2:
+            ctx.sample({"binding": "T", "family": "sequence", "case": c, "call_index": m["call"], "n": c["n"],
+                        "calls": m["seq"]["calls"][:m["call"] + 1], "curve": m["seq"].get("spec") or "small (points in the replay file)"})
+            break
 
 
 # ------------------------------------------------------------------ static self-test cases (hand-checkable)
@@ -478,6 +626,14 @@ def _validate(ctx, rec, selftest=None, chunk=4000):
     rej = ctx.trace("Trace_ZMethod", cases, selftest=selftest, chunk=chunk, procs=1)
     for cid, vs in rej.items():
         m = meta[cid]
+        if m.get("seq") is not None:         # sequence family: the replay file carries the WHOLE sequence (re-run in order)
+            c = next(c for c in cases if c["id"] == cid)
+            ctx.violation(vs[0][0], {"kind": "Q", "seq": m["seq"], "call": m["call"]},
+                          {"verdict": vs[0], "n": c["n"], "call_index": m["call"], "object": m["obj"],
+                           "this_call": {k: m[k] for k in ("dx", "dy", "dz", "x_max", "y_range")}, "w": c["w"],
+                           "earlier_calls": m["seq"]["calls"][:m["call"]], "knees": c["res"][:40], "xk": c["xk"][:40],
+                           "error": m["error"], "backedges": m["backedges"]})
+            continue
         if m.get("spec") is not None:        # scale family: the replay file carries the spec, not 10^5 points
             c = next(c for c in cases if c["id"] == cid)
             ctx.violation(vs[0][0], {"kind": "S", "spec": m["spec"], "dy": m["dy"], "dz": m["dz"]},
@@ -559,7 +715,11 @@ def run(ctx):
                 "cliffs with planted twin drops closer than the separation width, bumps, periodic texture, random walks, the "
                 "shared staircase / mrc builders, flat curves; unit, clustered and wide x gaps; dx, dy from 0.001 to 0.3, "
                 "default and overridden x_max / y_range) replayed into zmethod.knees and judged for every clause by the same "
-                "Trace_ZMethod cases, whose tables mention the returned knees only while w and the y band come from the FULL curve")
+                "Trace_ZMethod cases, whose tables mention the returned knees only while w and the y band come from the FULL curve. "
+                "SEQUENCE family: 2..7 calls in a row in one process on the same curve (the same array object and equal copies; "
+                "small curves n = 4..200 and production-size curves straddling 2^8..2^16, 10^4, 10^5) with the same dx/dy/dz and "
+                "changing x_max (n/2 .. 10n) / y_range overrides in both orders (a -> b -> a), sometimes a changed step; every "
+                "call is its own Trace_ZMethod case judged for every clause against the w and the y band of ITS OWN overrides")
     ctx.assumptions += [
         "x is integral by precondition and passed to TLC as integers < 2^30; heights as exact dense ranks of the "
         "returned knees' y; y-separation as the boolean |y_a-y_b| >= (y_max-y_min)*dy - 1e-12 (slack favours the code)",
@@ -571,6 +731,10 @@ def run(ctx):
         "MC_ZMethod: gaps range over 1..min(GapMax,w) (a gap > w decides every comparison like a gap = w); the "
         "visiting order of groups whose ZLevel ties is arbitrary (superset of the code's order by exact z)",
         "the machine's final sweep starts from a minimum no height exceeds (y <= 1 on the property's domain)",
+        "sequence family: calls of one sequence run consecutively in one worker process (other cases may run before and "
+        "after it in that process, never between its calls); the replay file carries the whole sequence and --replay re-runs "
+        "and judges all of its calls in order; if a call changes the shared array in place (another property) the later "
+        "calls get a fresh equal copy, so that every call of a sequence sees the same curve",
         "scale family: every curve is a deterministic function of its spec (shape, n, seed, K, dx, x gap mode, symbolic x_max / "
         "y_range override; builders in this file and harness.scale), rebuilt inside the worker and on --replay; it is judged by "
         "the same case record and the same budgets as the small calls (over 5 000 calls of the unchanged code the peak was 9 s "
@@ -579,24 +743,36 @@ def run(ctx):
     model_checks(ctx)
     items = inputs(ctx)
     sitems, ssizes = scale_inputs(ctx)           # drawn AFTER the small inputs: those stay what they were for a given seed
+    qitems, qsizes = seq_inputs(ctx)             # drawn last, for the same reason
     # one worker pool for both families (a second pool would pay the per-worker import of the library again); the long
     # curves are spread evenly over the small ones so that no chunk of the pool's work consists of long curves only
     mixed = list(items)
     stride = max(1, len(items) // max(1, len(sitems)))
     for k, it in enumerate(sitems):
         mixed.insert(min(len(mixed), k * (stride + 1)), it)
+    qstride = max(1, len(mixed) // max(1, len(qitems)))
+    for k, it in enumerate(qitems):              # a sequence runs inside ONE worker, call after call
+        mixed.insert(min(len(mixed), k * (qstride + 1) + 1), it)
     both = par.pmap(_record_any, mixed)
+    qrec = [r for rs in both if isinstance(rs, list) for r in rs]
+    both = [r for r in both if not isinstance(r, list)]
     rec = [r for r in both if r[1].get("spec") is None]
     srec = [r for r in both if r[1].get("spec") is not None]
     if ctx.quick:                                # one TLC run for both families
-        cases, meta = _validate(ctx, rec + srec, selftest=_selftests())
+        cases, meta = _validate(ctx, rec + srec + qrec, selftest=_selftests(), chunk=6000)      # still ONE TLC run
     else:
+        qc, qm = _validate(ctx, qrec, chunk=1500)
         cases, meta = _validate(ctx, rec, selftest=_selftests())
         sc, sm = _validate(ctx, srec, chunk=150)  # a few MB of JSON per TLC run
-        cases, meta = cases + sc, dict(meta, **sm)
+        cases, meta = cases + sc + qc, dict(meta, **dict(sm, **qm))
     _scale_evidence(ctx, [c for c, _, _ in srec], meta, ssizes)
+    _seq_evidence(ctx, qrec, qsizes)
     for c in cases:
         m = meta[c["id"]]
+        if m.get("seq") is not None:
+            ctx.count((m["seq"].get("spec") or m["seq"]["points"], m["dx"], m["dy"], m["dz"], m["x_max"], m["y_range"]),
+                      c["outcome"] == "returned" and len(c["res"]) >= 2)
+            continue
         ctx.count((m["points"], m["dx"], m["dy"], m["dz"], m["x_max"], m["y_range"]) if m.get("spec") is None
                   else (m["spec"], m["dy"], m["dz"]), c["outcome"] == "returned" and len(c["res"]) >= 2)
     ctx.extra["calls_with_3plus_knees"] = sum(1 for c in cases if len(c["res"]) >= 3)
@@ -610,6 +786,9 @@ def run(ctx):
 
 def replay(ctx, obj):
     c = obj["case"]
+    if c.get("kind") == "Q":                     # the whole sequence, in order, in this process; every call is judged
+        _validate(ctx, _record_seq(("replay", c["seq"])))
+        return
     if c.get("kind") == "S":
         _validate(ctx, [_record_scale(("replay", c["spec"], c["dy"], c["dz"]))])
         return
